@@ -129,6 +129,10 @@ struct TolG {
     double thr = 1e-8;
     void prepare(const LehmannTerms& t, double threshold = 1e-8, double merge = 1e-8) {
         thr = threshold;
+        // rounding of the poles themselves: the library and the reference diagonalise independently, each eigenvalue carries an error of a few
+        // ulp of the spectral width; at low temperature (small |w_n|) a term R/(z-P) turns that into R*dP/|z-P|^2 with 1/|z-P|^2 ~ (beta/pi)^2
+        double pmax = 0; for (double p : t.P) pmax = std::max(pmax, std::abs(p));
+        const double pole_noise = 32 * 2.220446049250313e-16 * (1 + pmax);
         std::vector<size_t> kept;
         for (size_t k = 0; k < t.R.size(); ++k) {
             if (std::abs(t.R[k]) <= thr * (1 + 1e-6)) { Rsmall.push_back(t.R[k]); Psmall.push_back(t.P[k]); }
@@ -140,7 +144,7 @@ struct TolG {
             double p = t.P[kept[q]], sh = 0;
             for (size_t r = q; r-- > 0;) { double d = p - t.P[kept[r]]; if (d < 2 * merge) sh = std::max(sh, d); else break; }
             for (size_t r = q + 1; r < kept.size(); ++r) { double d = t.P[kept[r]] - p; if (d < 2 * merge) sh = std::max(sh, d); else break; }
-            Rabs.push_back(std::abs(t.R[kept[q]])); P.push_back(p); shift.push_back(std::min(sh, merge) + 4e-16 * (1 + std::abs(p)));
+            Rabs.push_back(std::abs(t.R[kept[q]])); P.push_back(p); shift.push_back(std::min(sh, merge) + pole_noise);
         }
         // groups (chained within 2*merge); allowance only if partial sums can cancel (residues not in a common half-plane)
         size_t q = 0;
